@@ -1,10 +1,10 @@
-"""C06 -- scheduling kernel, scenario 'exec' judged by spec/hist/H_Exec.tla"""
+"""C06 -- scheduling kernel scenarios judged by spec/hist/H_Exec.tla"""
 import exec_common
 PID = "C06"
 
 
 def run(tier, seed):
-    return exec_common.run_exec(PID, tier, seed, 3)
+    return exec_common.run_exec(PID, tier, seed, 3, scns=("exec", "migrate"))
 
 
 def replay(path):
